@@ -161,14 +161,14 @@ fn run_trie_property(cli: &Cli) -> ! {
     let report = Report::new(cli);
     let prop = cli.property.as_str();
     let max_iters = if prop == "C15" { 3 } else { 2 };
-    if let Some(path) = &cli.replay {
-        let doc = mc_core::load_replay(path);
+    // artefacts with a history (or an instance-level witness) are re-evaluated alone; any other
+    // artefact is replayed by re-running the search with the witness as a filter (mc_core)
+    let replay_doc = cli.replay.as_ref().map(|p| mc_core::load_replay(p));
+    if let Some(doc) = replay_doc.as_ref().filter(|d| d["witness"].get("history").is_some() || (prop == "C15" && d["witness"].get("ops").is_some())) {
         let w = &doc["witness"];
+        report.disable_replay_filter();
         if w.get("history").is_none() {
-            if prop == "C15" {
-                instance::replay(&report, w);
-            }
-            mc_core::machinery_error("replay file has no history");
+            instance::replay(&report, w);
         }
         let init = match w["init"].as_str() {
             Some("Memory") => Init::Memory,
